@@ -438,6 +438,45 @@ const DICT: &[&str] = &[
     "//", "// é😀\n", " ", "\n", "\t", "\r\n", "  \n  ", "$", "@", "&", "é", "😀", "€", "\u{1}", "'", "`", "~", "?", "%", "^",
 ];
 
+/// one spelling per token class the grammar functions distinguish (36)
+const GRAMMAR_TOKENS: &[&str] = &[
+    "fn", "x", "(", ")", "{", "}", "[", "]", ",", ";", ":", "::", "->", "=>", "=", "|", "||", "-", "!", "+", ".", "#", "1", "\"s\"",
+    "let", "if", "else", "match", "while", "go", "struct", "enum", "trait", "impl", "for", "extern", "type", "dyn", "int32", "_",
+    "true", "package", "import", "$",
+];
+
+/// Inputs on which the parser spends all its fuel while returning through nested frames: `k` prefix operators /
+/// parentheses / closures in front of an operand, for every `k` around the fuel constant, in the contexts that
+/// look at the next token after the operand (match scrutinee, if/while condition, call argument, let, item start, …).
+pub fn fuel_boundary_inputs(thorough: bool) -> Vec<String> {
+    let mut v = Vec::new();
+    let ks: Vec<usize> = if thorough { (236..=262).collect() } else { (244..=258).collect() };
+    for &k in &ks {
+        let m = "-".repeat(k);
+        let b = "!".repeat(k);
+        v.push(format!("fn main() -> unit {{ let y = match {}x {{ a => 1 }}; () }}", m));
+        v.push(format!("fn main() -> unit {{ match {}x {{ (a, b) => 1, _ => 2 }} }}", m));
+        v.push(format!("fn main() -> unit {{ if {}x {{ 1 }} else {{ 2 }} }}", b));
+        v.push(format!("fn main() -> unit {{ while {}x {{ () }} }}", b));
+        v.push(format!("fn main() -> unit {{ f({}x, 2) }}", m));
+        v.push(format!("fn main() -> unit {{ let y = {}x; () }}", m));
+        v.push(format!("{}x\nfn g() -> unit {{ () }}", m));
+        v.push(format!("{}x\n#[a] fn g() -> unit {{ () }}", m));
+        v.push(format!("{}x\nstruct S {{ a: int32 }}", m));
+        v.push(format!("fn main() -> unit {{ let y = {}S {{ a: 1 }}; () }}", m));
+        v.push(format!("fn main() -> unit {{ let y = {}x[T] ; () }}", m));
+        v.push(format!("fn main() -> unit {{ let y = [{}x, 2]; () }}", m));
+        v.push(format!("fn main() -> unit {{ let y = ({}x, 2); () }}", m));
+        v.push(format!("fn main() -> unit {{ let y = {}x + 1 * 2; () }}", m));
+        v.push(format!("fn main() -> unit {{ go {}f(x); () }}", m));
+        v.push(format!("fn main() -> unit {{ let f = |a| {}a; () }}", m));
+        v.push(format!("fn main() -> unit {{ let y = match x {{ a => {}a, b => 2 }}; () }}", m));
+        v.push(format!("fn main() -> unit {{ let y = match x {{ a => {}a }} }}\nimpl S {{ fn f() -> unit {{ () }} }}", m));
+        v.push(format!("fn main() -> unit {{ let p = P {{ a: {}x, b: 2 }}; () }}", m));
+    }
+    v
+}
+
 fn random_text(rng: &mut Rng) -> String {
     let mut s = String::new();
     match rng.below(3) {
@@ -647,6 +686,42 @@ pub fn build_jobs(args: &util::Args) -> Vec<Job> {
                         push(format!("{}{}{}", &b[..at], sp, &b[at..]), short, &mut jobs, &mut seen);
                     }
                 }
+            }
+        }
+    }
+    // round 11 — grammar tie: every string of <= 3 (thorough 4) tokens over the grammar's alphabet, and
+    // nesting whose unwinding spends the parser's fuel (256 looks without an advance) exactly, one less, one more
+    {
+        let toks = GRAMMAR_TOKENS;
+        let maxlen = if thorough { 4 } else { 3 };
+        let mut idx: Vec<usize> = Vec::new();
+        let mut k = 0usize;
+        for len in 1..=maxlen {
+            idx.clear();
+            idx.resize(len, 0);
+            'outer: loop {
+                let text: String = idx.iter().map(|&i| toks[i]).collect::<Vec<_>>().join(" ");
+                if seen.insert(text.clone()) {
+                    jobs.push(Job { id: format!("g{}", k), stream: "token-exhaustive", text, tree: true });
+                    k += 1;
+                }
+                let mut j = len;
+                loop {
+                    if j == 0 {
+                        break 'outer;
+                    }
+                    j -= 1;
+                    idx[j] += 1;
+                    if idx[j] < toks.len() {
+                        break;
+                    }
+                    idx[j] = 0;
+                }
+            }
+        }
+        for (i, text) in fuel_boundary_inputs(thorough).into_iter().enumerate() {
+            if seen.insert(text.clone()) {
+                jobs.push(Job { id: format!("f{}", i), stream: "fuel-boundary", text, tree: true });
             }
         }
     }
